@@ -85,6 +85,8 @@ struct Inner {
     snapshot:     Option<Arc<dyn Fn() -> Snapshot + Send + Sync>>,
     pool_count:   usize,
     barrier_gen:  u64,
+    /// per thread: the outermost mutex held and the inner mutexes taken so far inside that critical section
+    nested_seen:  HashMap<Tid, (usize, Vec<usize>)>,
     last:         Option<Tid>,
     free_run:     bool,
 }
@@ -232,7 +234,7 @@ impl Sched {
     pub fn new() -> Sched {
         Sched {
             inner: Mutex::new(Inner {
-                run: 0, barrier_gen: 1, threads: vec![], current: None, spawner: None, holder: HashMap::new(), mutex_name: HashMap::new(), class_count: HashMap::new(),
+                run: 0, barrier_gen: 1, nested_seen: HashMap::new(), threads: vec![], current: None, spawner: None, holder: HashMap::new(), mutex_name: HashMap::new(), class_count: HashMap::new(),
                 cond_waiters: HashMap::new(), chans: HashMap::new(), driver: None, recording: false, trace: vec![], cur_obs: vec![], cur_locks: vec![],
                 cur_step: None, steps: 0, max_steps: 5000, quiescent: false, overrun: false, snapshot: None, pool_count: 0, last: None, free_run: false,
             }),
@@ -362,10 +364,22 @@ impl Runtime for &'static Sched {
     fn current(&self) -> usize { self.me() }
     fn point(&self, op: Op, loc: &'static Location<'static>) { Sched::point(self, op, loc) }
 
-    fn nested_point(&self, held: &[usize], _acquiring: Option<usize>, released: Option<usize>) -> bool {
+    fn nested_point(&self, held: &[usize], acquiring: Option<usize>, released: Option<usize>) -> bool {
+        let me = self.me();
+        let mut inner = self.inner.lock().unwrap();
+
+        // An inner mutex that is taken a second time inside the same outer critical section was released in between: threads that only take
+        // the inner mutex can get in there (the outer lock does not exclude them), so the re-acquisition is a scheduling point
+        if let (Some(id), Some(outer)) = (acquiring, held.first()) {
+            let fresh = inner.nested_seen.get(&me).map(|(o, _)| o != outer).unwrap_or(true);
+            if fresh { inner.nested_seen.insert(me, (*outer, vec![])); }
+            let seen = &mut inner.nested_seen.get_mut(&me).unwrap().1;
+            if seen.contains(&id) { return true; }
+            seen.push(id);
+        }
+
         // A mutex that other threads observe with try_lock (the pool threads' busy flags) makes the critical section visible: the
         // point after the schedule has been examined and before the busy flag is released is a scheduling point
-        let inner = self.inner.lock().unwrap();
         let class = |id: &usize| inner.mutex_name.get(id).map(|(_, class)| *class).unwrap_or("other");
         held.len() == 1 && class(&held[0]) == "busy" && released.as_ref().map(|id| class(id) == "sched").unwrap_or(false)
     }
@@ -399,8 +413,10 @@ impl Runtime for &'static Sched {
     }
 
     fn mutex_released(&self, id: usize) {
+        let me = self.me();
         let mut inner = self.inner.lock().unwrap();
         inner.holder.remove(&id);
+        if inner.nested_seen.get(&me).map(|(outer, _)| *outer == id).unwrap_or(false) { inner.nested_seen.remove(&me); }
     }
 
     fn cond_wait(&self, condvar: usize, _mutex: usize) {
